@@ -86,6 +86,24 @@ def callee_path(t):
     return c['def']['path']
 
 
+def resolved_path(t):
+    """path of the resolved instance when rustc could resolve the call in the caller's own
+    environment (e.g. `<std::str::Lines<'a> as std::iter::Iterator>::next`), else the declared path"""
+    c = t.get('callee')
+    if not c:
+        return None
+    r = c.get('resolved')
+    if r:
+        return r['def']['path']
+    return c['def']['path']
+
+
+def callee_str(t):
+    """declared callee with its generic arguments, e.g. `<Lines<'_> as Iterator>::next`"""
+    c = t.get('callee')
+    return c['s'] if c else None
+
+
 def callee_id(t):
     c = t.get('callee')
     if not c:
